@@ -360,24 +360,43 @@ type c29Infl struct {
 	Out   []byte
 	OK    bool
 	Avail bool  // streaming entry: In = prefix of a compressed message, N = output bytes handed out before more input is needed
+	EOF   bool  // streaming entry for "the stream ended after In" (key at_eof In in the model)
 	N     int64
 }
 
-type c29NeedMore struct{}
+type c29NeedMore struct{ asked *bool }
 
-func (c29NeedMore) Read([]byte) (int, error) { return 0, errors.New("c29: need more input") }
+func (r c29NeedMore) Read([]byte) (int, error) {
+	*r.asked = true
+	return 0, errors.New("c29: need more input")
+}
 
 // c29Surfaced: how many bytes a flate reader hands out when it has been given exactly this prefix of a
-// compressed message and asks for more (the decompressed-size limit trips on this count).
-func c29Surfaced(prefix []byte, tbl *[]c29Infl) int64 {
+// compressed message (the decompressed-size limit trips on this count).
+// eof = false: before it asks for input beyond the prefix, i.e. while more of the message follows -
+// compress/flate hands out at the end of a block, when its window is full or on an error, NOT whatever
+// it has decoded so far.  eof = true: when the stream ends after the prefix - the read error makes it
+// hand out everything it has decoded.
+func c29Surfaced(prefix []byte, eof bool, tbl *[]c29Infl) int64 {
 	for _, x := range *tbl {
-		if x.Avail && bytes.Equal(x.In, prefix) {
+		if x.Avail && x.EOF == eof && bytes.Equal(x.In, prefix) {
 			return x.N
 		}
 	}
-	fr := flate.NewReader(io.MultiReader(bytes.NewReader(prefix), c29NeedMore{}))
-	n, _ := io.Copy(io.Discard, fr)
-	*tbl = append(*tbl, c29Infl{In: append([]byte{}, prefix...), Avail: true, N: n})
+	asked := false
+	fr := flate.NewReader(io.MultiReader(bytes.NewReader(prefix), c29NeedMore{&asked}))
+	var n int64
+	buf := make([]byte, 4096)
+	for {
+		k, err := fr.Read(buf)
+		if eof || !asked { // bytes returned by a Read that asked for more are the flush caused by our error
+			n += int64(k)
+		}
+		if err != nil || asked && !eof {
+			break
+		}
+	}
+	*tbl = append(*tbl, c29Infl{In: append([]byte{}, prefix...), Avail: true, EOF: eof, N: n})
 	return n
 }
 
@@ -543,16 +562,16 @@ func c29Walk(cfg c29Cfg, strict bool, bs []byte, tbl *[]c29Infl) (viol int, bigC
 		if cfg.Limit > 0 && total > uint64(cfg.Limit) {
 			return 0, bigCtl
 		}
-		dtrip := func(data []byte) bool {
-			return compressed && cfg.DLimit > 0 && c29Surfaced(data, tbl) > cfg.DLimit
+		dtrip := func(data []byte, eof bool) bool {
+			return compressed && cfg.DLimit > 0 && c29Surfaced(data, eof, tbl) > cfg.DLimit
 		}
 		if uint64(len(bs)) < length {
-			dtrip(append(append([]byte{}, acc...), unmask(bs)...)) // recorded for the model; the stream ends either way
+			dtrip(append(append([]byte{}, acc...), unmask(bs)...), true) // recorded for the model; the stream ends either way
 			return 0, bigCtl
 		}
 		acc = append(acc, unmask(bs[:length])...)
 		bs = bs[length:]
-		if dtrip(acc) { // the part received so far already inflates beyond the limit
+		if dtrip(acc, false) { // the part received so far already inflates beyond the limit
 			return 0, bigCtl
 		}
 		if !fin {
@@ -969,7 +988,15 @@ func c29EmitObs(w *verifW, i int, cfg c29Cfg, stream []byte, class string, obs [
 	var tb, av []string
 	for _, e := range tbl {
 		if e.Avail {
-			av = append(av, vPair(vBytes(e.In), vN(uint64(e.N))))
+			key := vBytes(e.In)
+			if e.EOF {
+				ks := make([]string, 0, len(e.In)+1)
+				for _, b := range e.In {
+					ks = append(ks, vN(uint64(b)))
+				}
+				key = vList(append(ks, vN(256))) // at_eof
+			}
+			av = append(av, vPair(key, vN(uint64(e.N))))
 		} else {
 			tb = append(tb, vPair(vBytes(e.In), vOpt(vBytes(e.Out), e.OK)))
 		}
